@@ -1,21 +1,23 @@
 /-!
 # `uf_reds` of a category as `DR_Def.add` stores it (core Lean only)
 
-Source modelled: `cla/dr_def.py: DR_Def._handle_defaults` (the `uf_reds` lines) and
-`cla/_utilities.py: _merge_uf_reds(old, new)` with the default method `"replace"`:
+Source modelled: `cla/dr_def.py: DR_Def._handle_defaults` (the `uf_reds` lines, after fix 8b1ec50,
+finding F56) and `cla/_utilities.py: _merge_uf_reds(old, new)` with the default method `"replace"`:
 
     if ns.uf_reds is None:
         ns.uf_reds = self.defaults.get("uf_reds", (1, 1, 1, 1))
     ...
-    # ensure uf_reds has no None values:
-    ns.uf_reds = _merge_uf_reds((1, 1, 1, 1), ns.uf_reds)
+    uf_default = self.defaults.get("uf_reds")
+    if uf_default is None:
+        uf_default = (None, None, None, None)
+    uf_default = _merge_uf_reds((1, 1, 1, 1), uf_default)
+    ns.uf_reds = _merge_uf_reds(uf_default, ns.uf_reds)
 
 `_merge_uf_reds` is `tuple(n if n is not None else o for o, n in zip(old, new))`.
 
-The docstring of `DR_Def.add` says something else for `None` ENTRIES: "any of the four entries in the
-tuple can be None; these get reset to the corresponding entry from the `self.defaults` or, if that's
-None too, 1" (`addUfRedsDoc`).  The code resets them to 1 whatever `defaults` holds (`addUfReds`) —
-observation (a) of the C16 brief, a finding: see `Props/C16UfDef.lean`.
+The docstring of `DR_Def.add`: "any of the four entries in the tuple can be None; these get reset to the
+corresponding entry from the `self.defaults` or, if that's None too, 1" (`addUfRedsDoc`).  Before the fix
+the code reset `None` entries to 1 whatever `defaults` held.
 -/
 namespace PyYetiVerif.ApplyUfDef
 
@@ -26,7 +28,9 @@ def mergeUfReds {α : Type} (old : List α) (new : List (Option α)) : List α :
 /-- the code: `defaults` = `self.defaults.get('uf_reds')` (`none`: no such key), `given` = the
 `uf_reds` argument of `add` -/
 def addUfReds {α : Type} [OfNat α 1] (defaults given : Option (List (Option α))) : List α :=
-  mergeUfReds [1, 1, 1, 1] (given.getD (defaults.getD [some 1, some 1, some 1, some 1]))
+  let ns := given.getD (defaults.getD [some 1, some 1, some 1, some 1])
+  let ufDefault := mergeUfReds [1, 1, 1, 1] (defaults.getD [none, none, none, none])
+  mergeUfReds ufDefault ns
 
 /-- the docstring: an entry given wins, else the entry of `defaults`, else 1 -/
 def addUfRedsDoc {α : Type} [OfNat α 1] (defaults given : Option (List (Option α))) : List α :=
